@@ -4,7 +4,7 @@
     with "unset = 0"), latency bounds over LatencyModel.v (unbounded Z), and the
     lockset annotation of the fields shared with the periodic refresh. *)
 From Gnmi Require Import Base.Prelude CTree.CTreeModel Path.PathModel Cache.CacheModel
-  Cache.MultiCache Cache.C14Proofs Cache.C14Check Cache.C15Check Cache.C15Proofs Cache.C15Count Cache.C15Latest Cache.C15History Cache.C15KSound Latency.LatencyModel Latency.LatencyProofs.
+  Cache.MultiCache Cache.C14Proofs Cache.C14Check Cache.C15Check Cache.C15Proofs Cache.C15Count Cache.C15Latest Cache.C15History Cache.C15KSound Cache.C15CounterReset Latency.LatencyModel Latency.LatencyProofs.
 Local Open Scope Z_scope.
 
 (** update_accounting.  Reading fixed in DESIGN section 6: the law is per
@@ -282,3 +282,18 @@ Theorem C15_K_latest_sound : forall ks ob t a m,
   geti m md_latest_ts = match k_latest (kget ks t) with Some z => z | None => 0 end.
 Proof. exact kp_latest_one_sound. Qed.
 Print Assumptions C15_K_latest_sound.
+
+(** known finding KF-C15-3 (tag 14): C15_leafcount_is_tree without the
+    hypothesis [no_counter_reset] is false -- update a/b, then a delete addressed
+    to meta/targetLeaves (gnmiRemove -> metadata.ResetEntry): no call panics, the
+    counter reads 0, one non-metadata leaf is stored.  Witness
+    corpus/C15/kf3_counter_reset.json *)
+Theorem C15_leafcount_without_no_counter_reset_refuted :
+  exists cfg names ops,
+    ~ In ""%string names /\
+    (forall k, (k < List.length ops)%nat ->
+       snd (fst (cstep (crun (new_cache cfg names) (firstn k ops)) (nth k ops MGate))) <> RPanic) /\
+    exists name t, assoc name (c_targets (crun (new_cache cfg names) ops)) = Some t /\
+                   gi (t_meta t) md_leaf_count = 0 /\ real_count (t_tree t) = 1.
+Proof. exact leafcount_is_tree_without_no_counter_reset_refuted. Qed.
+Print Assumptions C15_leafcount_without_no_counter_reset_refuted.
